@@ -3,6 +3,7 @@ package vh
 // C18 Log window and live subscription: right window, no gap, no duplicate.
 
 import (
+	"math"
 	"fmt"
 	"strings"
 
@@ -23,14 +24,14 @@ func refWindow(lines []string, off, lim int) []string {
 	}
 	start := n - off
 	end := n
-	if lim >= 1 && start+lim < n {
+	if lim >= 1 && lim < n-start { // (no addition: lim may be as large as an int gets)
 		end = start + lim
 	}
 	return lines[start:end]
 }
 
 func c18E2(tier string, o *E2Out) {
-	o.Rule = "E2: (a) log buffer sizes {0,1,3}, every write count 0..size+2*slack+3: after each write the buffer holds the most recent lines in order, at least min(written,size), at most size+slack, and no window handed out earlier changes its content; (b) every (offset,limit) in [-2,len+2]^2 for every log length <= maxLen: GetLogRange equals the reference window and never panics. A case is non-trivial when the log is non-empty."
+	o.Rule = "E2: (a) log buffer sizes {0,1,3}, every write count 0..size+2*slack+3: after each write the buffer holds the most recent lines in order, at least min(written,size), at most size+slack, and no window handed out earlier changes its content; (b) every (offset,limit) in ([-2,len+2] + the ends of the int range)^2 for every log length <= maxLen: GetLogRange equals the reference window and never panics. A case is non-trivial when the log is non-empty."
 	o.Exhaustive = true
 	idx := 0
 	// (a) window
@@ -101,8 +102,17 @@ func c18E2(tier string, o *E2Out) {
 			b.Write(l)
 			lines = append(lines, l)
 		}
-		for off := -2; off <= n+2; off++ {
-			for lim := -2; lim <= n+2; lim++ {
+		// "whatever numbers are passed": besides the small values, the ends of the integer range
+		extremes := []int{math.MaxInt, math.MaxInt - 1, math.MinInt, math.MinInt + 1, 1 << 62, -(1 << 62)}
+		var offs, lims []int
+		for v := -2; v <= n+2; v++ {
+			offs = append(offs, v)
+			lims = append(lims, v)
+		}
+		offs = append(offs, extremes...)
+		lims = append(lims, extremes...)
+		for _, off := range offs {
+			for _, lim := range lims {
 				o.Evaluations++
 				if n > 0 {
 					o.Distinct++
